@@ -1791,9 +1791,22 @@ impl Check for C31 {
             s.srcs.push(SrcSpec { text: format!(".orig x{:04X}\n.blkw {}\n.end\n", 0x7000 + r.below(0x100) as u16, 1 + r.below(8)), debug: false });
             s.regs.push((r.below(6) as u8, 0x7000 + r.below(0x100) as u16));
         }
+        // a seeded timer that starts with an exact count and is widened by the host later
+        if r.chance(1, 4) {
+            let vect = 0x70 + r.below(0x8) as u8;
+            let haddr = 0x1400 + 0x40 * (s.devs.len() as u16);
+            s.srcs.push(SrcSpec { text: gen_handler(r, haddr, None, false, 1), debug: false });
+            s.pokes.push((0x100 + vect as u16, vec![haddr]));
+            let n = 3 + r.below(8) as u32;
+            let ix = s.devs.len();
+            s.devs.push(DevSpec::Timer(TimerSpec { seed: Some(r.next_u64()), lo: n, hi: n, incl: true, vect, prio: 1 + r.below(7) as u8, enabled: true }));
+            let total: u32 = s.ops.iter().map(|o| if let Op::Step(k) = o { *k } else { 0 }).sum::<u32>().min(s.max_ticks);
+            let a = r.below(total as u64 / 2 + 1) as u32;
+            s.ops = vec![Op::Step(a), Op::TimerRange(ix, 2 + r.below(4) as u32, 12 + r.below(12) as u32, r.bool()), Op::Step(total - a)];
+        }
         // histories with a reset (memory and registers are re-created under the same strategy) or a
         // reload on top of the used machine in the middle
-        if r.chance(1, 2) {
+        if s.ops.len() <= 1 && r.chance(1, 2) {
             let total: u32 = s.ops.iter().map(|o| if let Op::Step(k) = o { *k } else { 0 }).sum::<u32>().min(s.max_ticks);
             let a = r.below(total as u64 + 1) as u32;
             let mut ops = vec![Op::Step(a)];
